@@ -721,7 +721,7 @@ func (p *Path) assertObligKnown(cond *Term, label string, known *Term, finding s
 		}
 		// one search per distinct vector of harness choices, at most 6 per assertion
 		ckey := bkey + "#" + choiceKey(p.choices)
-		if p.ex.siteBudgetN(ckey, 1) && p.ex.siteBudgetN(bkey, 6) {
+		if p.ex.siteBudgetN(ckey, 3) && p.ex.siteBudgetN(bkey, 9) {
 			p.refineAndRecord(ob, neg)
 		} else {
 			ob.Status = "violated-unrefined"
